@@ -352,6 +352,14 @@ func (g *pgen) corpusC04(start int) []*ConvSpec {
 		c.Methods = []*MethodSpec{{Name: "M0", Src: at, Tgt: at, Fields: map[string]*fieldSet{}}}
 		out = append(out, c)
 	}
+	// the identical struct type on both sides with a field that is not accessible from the output package (refused today;
+	// if ever accepted, the slices / pointers inside must still be copied)
+	hidden := g.newNamed(1, &Ty{K: "struct", Pkg: 1, Fields: []Field{{"Name", str}, {"tags", tSlice(str)}, {"Ref", tPtr(i)}}}, "S")
+	for _, ht := range []*Ty{tNamed(hidden), tPtr(tNamed(hidden)), tSlice(tNamed(hidden))} {
+		c := &ConvSpec{Name: fmt.Sprintf("C%d", start+len(out))}
+		c.Methods = []*MethodSpec{{Name: "M0", Src: ht, Tgt: ht, Fields: map[string]*fieldSet{}}}
+		out = append(out, c)
+	}
 	for k, sh := range shapes {
 		c := &ConvSpec{Name: fmt.Sprintf("C%d", start+len(out))}
 		c.Methods = []*MethodSpec{{Name: "M0", Src: sh, Tgt: sh, Fields: map[string]*fieldSet{}}}
